@@ -11,7 +11,7 @@ LEVEL = "exploration"
 RULE = (
     "Cases are (entry point, segment sequence): exhaustive sequences of length <= 4 (quick) / <= 5 (thorough) over the 12-symbol "
     "alphabet {., .., '', a, b, .a, a., ..a, ..., %2E, %2e%2E, .%2E} through 12 entry points (constructor with/without authority, "
-    "rooted/rootless; build with/without host; with_path; '/' with a multi-segment piece; joinpath all-at-once and one-by-one; "
+    "rooted/rootless; build with/without host; with_path; '/' with a multi-segment piece; joinpath all-at-once, one-by-one and grouped at every split point; "
     "join with rootless and rooted references), all sequences of length <= 3 over a second alphabet whose symbols only BECOME dot segments when quoted "
     "(dots mixed with lone surrogates, which both quoters drop), plus seeded random sequences up to 40 segments.  Signature = (entry point, "
     "multiset class of the sequence: which symbols occur, first and last symbol); non-trivial when a dot-like symbol occurs."
@@ -25,6 +25,9 @@ ALPHA = [".", "..", "", "a", "b", ".a", "a.", "..a", "...", "%2E", "%2e%2E", ".%
 # a third spelling of a dot segment: text the quoter reduces to dots (it drops lone surrogates)
 HIDDEN = [".\udc80.", "\udc80..", "\udc80.", "..\udc80", ".\ud800", "\udc80", "a\udc80", "..", "a", ""]
 DOTLIKE = {".", "..", "%2E", "%2e%2E", ".%2E"} | set(HIDDEN[:5])
+
+# parts also run by 4 threads at once in one process (runner adds the jobs; see yv/ctx.py Ctx.threaded)
+SHARED = [("random", {"n": 500}, {"n": 15000})]
 
 
 def plan(tier, seed):
@@ -186,6 +189,19 @@ def run_seq(ctx, segs, full):
             exp = rfc.remove_dot_segments(sp)
             ctx.ev(sig("joinpath_all"))
             verify(ctx, "joinpath_all", {"entry": "joinpath_all", "base": base, "segs": segs}, guarded(lambda: bu.joinpath(*pieces)), exp, True, sp)
+    # joinpath with the sequence GROUPED into multi-segment arguments (a non-final argument then ends with '/'): every split point
+    if len(segs) >= 2 and not joined.startswith("/"):
+        for base in ("http://h/x/y", "http://h"):
+            bu = URL(base)
+            bpath = base[len("http://h"):]
+            for k in (range(1, len(segs)) if len(segs) <= 5 else (1, len(segs) // 2, len(segs) - 1)):
+                head, tail = "/".join(segs[:k]), "/".join(segs[k:])
+                if head.startswith("/") or tail.startswith("/") or head == "":
+                    continue
+                for pieces in ([head + "/", tail], [head, tail]) if tail else ([head + "/", tail],):
+                    sp = splice(bpath, [pct25(x) for x in pieces], True)
+                    ctx.ev(sig("joinpath_grouped"))
+                    verify(ctx, "joinpath_grouped", {"entry": "joinpath_grouped", "base": base, "segs": segs, "pieces": pieces}, guarded(lambda: bu.joinpath(*pieces)), rfc.remove_dot_segments(sp), True, sp)
     # joinpath one-by-one: each step normalises; expected = fold of the documented splice
     base = "http://h/x/y"
     cur = guarded(URL, base)
